@@ -1,5 +1,5 @@
 """C15 - the DictList operations NAMED in the property that had no contract: query, pickling (__reduce__, __getstate__, the
-round-trip lemma), slice assignment (__setitem__ with a simple slice, __setslice__), list_attr, __dir__  (hook table HOOKS; keys KEYS; lemmas()).
+round-trip lemma), slice assignment (__setitem__ with a simple slice, __setslice__), selection by a boolean mask, list_attr, __dir__  (hook table HOOKS; keys KEYS; lemmas()).
 
 All for a DictList of ANY length over the real source of /repo/src/cobra/core/dictlist.py.
 
@@ -46,6 +46,13 @@ DictList.__setitem__(i, y) for a SIMPLE SLICE i (step None) and a list y that is
   and `_generate_index` by their proved contracts; `self._dict[id] = None` as `key present, value unspecified` (setitem hook);
   ASSUMED: `list.__setitem__(self, slice, y)` = the splice axiom `_splice` (cross-checked against CPython on 6144 (list, bounds,
   items) combinations: no mismatch); a call-site lemma (obliged) states that the new list's identifiers are pairwise different.
+DictList.__getitem__(i) for a LIST OF BOOLEANS i (mask) - third contract, key "DictList.__getitem__@mask", same technique as query:
+    mask_full_length           len(i) == len(self) > 0: a NEW well-formed DictList holding exactly the elements whose mask entry is
+                               True, in the order of self (ghost maps + `found by identifier <=> mask entry True`), self unchanged
+    mask_empty_on_empty_list   len(i) == len(self) == 0: IndexError (`i[0]`; natively DictList()[[]] raises IndexError), nothing changed
+    list_of_other_length       TypeError (ASSUMED CPython: list.__getitem__(self, <list>) raises TypeError), nothing changed
+  (a mask of ints such as [1, 0, 1] is NOT a mask for the code - `isinstance(i[0], bool)` - and raises TypeError natively: outside the
+  stated parameter type list-of-bool.)
 DictList.__setslice__(i, j, y): the same two cases for slice(i, j), by the slice contract above.  With __getslice__ / __delslice__
   (proved in c15_dictlist) a Python 2 relic: natively under Python 3.12 slicing syntax never calls any of the three - DEAD CODE unless
   called explicitly.
@@ -78,6 +85,9 @@ Mutation trials (tools/mutate_and_run.sh cobra/core/dictlist.py ... contracts.c1
   __setitem__@slice without `self._check(obj.id)`                                         slice_duplicate_id: no feasible path, inv-preserve.4/.5 (sat)
   __setitem__@slice `finally: pass` (no _generate_index)                                  duplicate: post (sat); unique: post.2 / post.3 unknown
   __setitem__@slice `list.__setitem__(self, i, y)` moved before the loop                  setslice/new-ids-distinct (sat), inv-init
+  __getitem__@mask `if i[j]` -> `if not i[j]`;  -> `if i[0]`                              mask_full_length post.9 / post.10 (sat), post.7 unknown
+  __getitem__@mask mask branch `return selection` -> `return self`                        mask_full_length post (sat)
+  __getitem__@mask without the `len(i) == len(self)` test                                 list_of_other_length undecided (filter may raise)
   __setslice__ `slice(i, j)` -> `slice(j, i)`;  -> `slice(i, j + 1)`                      new_unique_ids post.4-.7 (unknown), both
 """
 import z3
@@ -102,7 +112,7 @@ RE_COMPILE = z3.Function("re_compile", Id, Ref)
 RE_FINDS = z3.Function("re_findall_nonempty", Ref, Id, B)
 
 MYKEYS = ("DictList.query", "DictList.list_attr", "DictList.__dir__", "DictList.__reduce__", "DictList.__getstate__",
-          "DictList.__setslice__", "DictList.__setitem__@slice")
+          "DictList.__setslice__", "DictList.__setitem__@slice", "DictList.__getitem__@mask")
 
 
 def _mine(eng):
@@ -121,6 +131,8 @@ def _getattr(eng, st, v, name):
         return [("ok", st, VFunc("abstract", "re.compile"))]
     if isinstance(v, VClass) and v.name == "list" and name == "__setitem__" and eng.cur_contract.key == "DictList.__setitem__@slice":
         return [("ok", st, VFunc("abstract", "list.__setitem__"))]
+    if isinstance(v, VClass) and v.name == "list" and name == "__getitem__" and eng.cur_contract.key == "DictList.__getitem__@mask":
+        return [("ok", st, VFunc("abstract", "list.__getitem__"))]
     if isinstance(v, VRef) and v.cls == "Pattern" and name == "findall":
         return [("ok", st, VFunc("bound", v, name))]
     return None
@@ -149,6 +161,12 @@ def _call_abstract(eng, st, f, pos, kw):
         n = fresh("dir_len", z3.IntSort())
         st2, l = alloc_list(st.assume(n >= 0), "id", base="dir", length=n)
         return [("ok", st2.setghost("dir_list", l).setghost("dir_len0", n), l)]
+    if f.a == "list.__getitem__" and len(pos) == 2 and not kw:
+        if isinstance(pos[1], VObj) and pos[1].kind == "list":
+            # ASSUMED (CPython): a list is not an index - "list indices must be integers or slices, not list"
+            return [eng.raise_(st, "TypeError")]
+        from pyvc import builtins as Bi
+        return Bi.list_getitem(eng, st, pos[0], pos[1])
     if f.a == "list.__setitem__" and len(pos) == 3 and not kw:
         return _list_slice_assign(eng, st, *pos)
     raise Unsupported(f"abstract call {f.a}")
@@ -511,6 +529,55 @@ REG.add(Contract(M, "DictList.__setslice__", "C15", [SELF, ("i", TInt()), ("j", 
     note="PROVED over the proved slice contract of __setitem__ (dead code under Python 3: slicing syntax never calls it)"))
 
 KEYS += ["DictList.__setitem__@slice", "DictList.__setslice__"]
+
+
+# ================================================================ selection by a boolean mask:  dl[[True, False, ...]]
+def _mask(E):
+    rec = E.s0.objs[E["i"].oid]
+    return rec["len"], rec["elem"]
+
+
+def _mask_post(E):
+    if not _fresh_dl(E):
+        return z3.BoolVal(False)
+    g = E.s1.ghost.get("query_maps")
+    if g is None or g[3] != E.res.oid:
+        return z3.BoolVal(False)
+    m, src, dst, _ = g
+    n0, e0 = L(E.s0, E["self"])
+    n1, e1 = L(E.s1, E.res)
+    dom1, val1 = Dv(E.s1, E.res)
+    _, mk = _mask(E)
+    ida = idarr(E, E.s0)
+    i, j, i2, j2, i3 = qv("mi"), qv("mj"), qv("mi2"), qv("mj2"), qv("mi3")
+    return z3.And(
+        WF(E, E.s1, E.res), unchanged_dl(E, E["self"]), z3.And(n1 == m, 0 <= m, m <= n0),
+        FA([j], z3.Implies(z3.And(0 <= j, j < m), z3.And(0 <= src[j], src[j] < n0, mk[src[j]], e1[j] == e0[src[j]], dst[src[j]] == j)),
+           patterns=[e1[j]]),
+        FA([i2, j2], z3.Implies(z3.And(0 <= i2, i2 < j2, j2 < m), src[i2] < src[j2]), patterns=[z3.MultiPattern(src[i2], src[j2])]),
+        FA([i], z3.Implies(z3.And(0 <= i, i < n0, mk[i]), z3.And(0 <= dst[i], dst[i] < m, src[dst[i]] == i, e1[dst[i]] == e0[i])),
+           patterns=[dst[i]]),
+        FA([i3], z3.Implies(z3.And(0 <= i3, i3 < n0), mk[i3] == z3.And(z3.Select(dom1, ida[e0[i3]]), e1[val1[ida[e0[i3]]]] == e0[i3])),
+           patterns=[e0[i3]]))
+
+
+def _mask_cases():
+    same = lambda E: _mask(E)[0] == L(E.s0, E["self"])[0]  # noqa
+    nonempty = lambda E: L(E.s0, E["self"])[0] > 0  # noqa
+    out = [Case("mask_full_length", requires=lambda E: z3.And(same(E), nonempty(E)), ensures=_mask_post),
+           Case("mask_empty_on_empty_list", requires=lambda E: z3.And(same(E), z3.Not(nonempty(E))), raises="IndexError",
+                ensures=lambda E: unchanged_dl(E, E["self"])),
+           Case("list_of_other_length", requires=lambda E: z3.Not(same(E)), raises="TypeError", ensures=lambda E: unchanged_dl(E, E["self"]))]
+    for c in out:
+        c.types = {"i": VObj}
+    return out
+
+
+REG.add(Contract(M, "DictList.__getitem__", "C15", [SELF, ("i", TList("bool"))], _mask_cases(),
+                 pre=lambda E: z3.And(WF(E, E.s0, E["self"]), _mask(E)[0] >= 0), key="DictList.__getitem__@mask",
+                 note="PROVED (third contract of __getitem__, for a list of booleans): see contracts/c15_query.py"))
+
+KEYS += ["DictList.__getitem__@mask"]
 
 
 # ================================================================ the pickle round trip, from the very contracts
